@@ -20,17 +20,17 @@ CHECKS = {
  'C07': dict(text='Bounded model checking: for every phrase of 3 solver-chosen words the scanner (threshold 0) and the validator (whole phrase and every sub-span) are executed from MIR on the same symbolic words; z3 decides that each non-decimal occurrence validates to its own text, an accepted phrase is exactly one occurrence with the same digits, and no word that validates on its own is left outside every occurrence.',
              note=COMMON_NOTE + 'Alphabet as C06.', ref='DESIGN.md 4 C07'),
  'C08': dict(text='Bounded, solver-decided: (a,b) in [0,99]^2, joiner (space or conjunction) and variants are solver variables; the scanner is executed from MIR on spell(a) joiner spell(b); z3 decides that the outcome is the two numbers in order or the single number whose standard spelling consists of exactly those words (table from the reference speller), with the zero rules; dictation of up to 5/8 digits gives exactly the stated grouping.',
-             note=COMMON_NOTE + 'Fusion table computed from the reference speller only.', ref='DESIGN.md 4 C08'),
+             note=COMMON_NOTE + 'Fusion table computed from the reference speller only. Quick: both numbers in the same spelling variant, standard French tens. The greedy reading of a space-separated "quatre vingt ..." after another number is a listed known finding.', ref='DESIGN.md 4 C08'),
  'C09': dict(text='Bounded model checking: find_numbers executed from MIR over streams of 3 solver-chosen words at threshold 0 and at each of the listed thresholds (10, 3, NaN, -1; thorough more); z3 decides that occurrences at the threshold are a sub-sequence of those at 0 and that a number is kept exactly when it is not small or has a same-kind neighbour with only ignorable tokens between (policy oracle from the statement).',
-             note=COMMON_NOTE + 'Linking words = those for which is_linking answers true on the token text.', ref='DESIGN.md 4 C09'),
+             note=COMMON_NOTE + 'Linking words = those for which is_linking answers true, and the language\'s conjunction. The decimal separator word between two numbers not isolating them is a listed known finding.', ref='DESIGN.md 4 C09'),
  'C10': dict(text='Bounded, solver-decided at text level: texts A, B of solver-chosen words and "A lorem ipsum dolor. B" go through tokenize/basic_annotate/find_numbers from MIR; z3 decides that the occurrences of the joined text are those of A followed by those of B shifted.',
              note=COMMON_NOTE + 'Tokenizer abstracted on part-structured texts (justified by C02a). French uses a reduced alphabet around the ambiguity rule.', ref='DESIGN.md 4 C10'),
  'C11': dict(text='Bounded model checking: the same solver-chosen stream of 3 words is scanned from MIR all lowercase and with a solver-chosen recasing per word; z3 decides identical occurrences at the threshold and identical text2digits results.',
-             note=COMMON_NOTE + 'Recasings: lower, UPPER, Capitalised, alternating; only reversible ones.', ref='DESIGN.md 4 C11'),
+             note=COMMON_NOTE + 'Recasings: lower, UPPER, Capitalised (thorough: also alternating); only reversible ones; one number word with a non-ASCII letter per language is always in the alphabet.', ref='DESIGN.md 4 C11'),
  'C12': dict(text='Bounded, solver-decided: every public DigitString method is executed symbolically from its MIR on an arbitrary valid builder state (symbolic length <= 8 quick / 14 thorough, symbolic digits, zero counter, frozen bit, flags, marker) and z3 shows result and post-state equal the documented semantics, no panic condition is satisfiable and the digit invariant is re-established (one inductive step, so operation sequences of any length within the length bound are covered).',
-             note=COMMON_NOTE + 'Reference semantics in checks/c12.py. Bounds: buffer <= 8/14 digits, arguments 1..3/4 digits, shift 0..12.', ref='DESIGN.md 4 C12'),
+             note=COMMON_NOTE + 'Reference semantics in checks/c12.py. Bounds: buffer <= 8/14 digits, arguments 1..3/4 digits, shift 0..12. Thorough tier adds an independent Kani/CBMC cross-check (136 harnesses in /verif/kani on the compiled crate).', ref='DESIGN.md 4 C12'),
  'C13': dict(text='Solver-decided without input bounds: each LangInterpreter method of Language is executed from MIR for each variant with opaque arguments and the inner interpreter uninterpreted: exactly one forwarded call to the same method of the variant\'s own type with identical arguments and unchanged result; get_interpreter_for is executed on an opaque string with free, pairwise exclusive equality Booleans: Some(L) exactly for the ISO code of each built-in language, None otherwise.',
-             note=COMMON_NOTE + 'End-to-end equality follows because generic code reaches an interpreter only through the eight trait methods.', ref='DESIGN.md 4 C13'),
+             note=COMMON_NOTE + 'End-to-end equality follows because generic code reaches an interpreter only through the eight trait methods. A facade method that is not a single forwarded call is compared with the concrete method by a solver-decided differential on arbitrary builder states (<= 8 digits).', ref='DESIGN.md 4 C13'),
  'C14': dict(text='Solver-decided reachability of every std print call site in the MIR from text2digits/find_numbers over two-word phrases drawn from the whole vocabulary of each language (native replay with captured stdout/stderr); scan of all MIR types/callees for interior mutability, mutable statics and thread-locals plus a two-call query per language; Send+Sync by the compiler. The quantifier over thread interleavings is NOT explored.',
              note=COMMON_NOTE + 'No engine of this family explores schedules of Rust code; stated in evidence and DESIGN.md section 6.', ref='DESIGN.md 4 C14, 6'),
  'C15': dict(text='Bounded model checking: streams of 2 (quick) / 3 words with solver-chosen words, separators and free hint flags on every token; find_numbers and the FindNumbers iterator (driven by a small harness written in MIR syntax that calls the real next until None) are executed from MIR; z3 decides lazy == batch item by item, nothing read before the first request and never beyond the second recognised number after the returned one, no not-a-number-part token inside an occurrence, no separated token sharing an occurrence with its predecessor.',
@@ -44,6 +44,10 @@ CHECKS = {
 }
 for _k in CHECKS:
     CHECKS[_k].setdefault('tech', T)
+NOTES = ('All checks belong to one technique family: symbolic execution of the real code (rustc MIR regenerated from /repo on every run, executed by /verif/mirsym) with z3 deciding every obligation within stated bounds; counterexamples are replayed on the natively compiled crate before a VIOLATION line is printed; exit 2 = inconclusive (never a pass). '
+         'DESIGN.md section 11 describes the suite as built: fixes made in /repo, known findings (known_findings.json), false alarms corrected, bounds per tier, seeded changes and which check catches them. '
+         'C14: the quantifier over thread interleavings is not addressable by this family (DESIGN.md 6, 11.8); the check decides the sequential premise only. '
+         'Thorough commands use deeper bounds only for the properties listed in THOROUGH.txt (DESIGN.md 11.9).')
 VERIFIED = set((open('VERIFIED.txt').read().split() if __import__('os').path.exists('VERIFIED.txt') else []))
 def main():
     m = json.load(open('MANIFEST.json'))
@@ -61,6 +65,8 @@ def main():
     m['not_applicable'] = [{'property_id': p, 'reason': 'check built (checks/%s.py) but not yet passing cleanly on the unchanged tree within the time budget; not claimed' % p.lower()} for p in props if not (p in CHECKS and p in VERIFIED)]
     m['engines'][0]['serves_properties'] = sorted(VERIFIED)
     m['hooks']['source_commits'] = ['1e8656f']
+    m['engines'] = [e for e in m['engines'] if e['name'] == 'mirsym'] + [{'name': 'kani-crosscheck', 'path': 'kani/', 'serves_properties': ['C12'] if 'C12' in VERIFIED else [], 'kind_free_text': 'Kani 0.68 / CBMC 6.11 harness crate with a path dependency on /repo: independent re-decision of the DigitString obligations O1-O3, O5 on the compiled crate (thorough tier of C12, or VERIF_KANI=1)'}]
+    m['notes'] = NOTES
     json.dump(m, open('MANIFEST.json', 'w'), indent=1)
     import jsonschema
     jsonschema.validate(m, json.load(open('/root/.vp/MANIFEST.schema.json')))
